@@ -14,6 +14,8 @@ SOUND = {"sound", "sound_env", "sound_mac", "errkind", "strict", "nonid", "ids_e
 ALL_FNS = [
     ER + "InternalError::into_custom", ER + "ProtocolError::into_custom", ER + "check_slice_size", ER + "check_slice_size_atleast",
     S + "Input::from", S + "Input::from_owned", S + "Input::from_label", S + "Input::iter", S + "Input::to_array_2", S + "Input::to_array_3",
+    # prelude contracts anchored by body text (generic loops over an opaque iterator; bounded Kani harness): a changed body makes them 'refused'
+    S + "UpdateExt::chain_iter", S + "MacExt::update_iter",
     "ksf::Identity::hash", "ksf::Argon2::hash", G + "i2osp_2", G + "KeGroup::derive_auth_keypair",
     GE + "serialize_pk", GE + "deserialize_pk", GE + "hash_to_scalar", GE + "public_key", GE + "is_zero_scalar", GE + "diffie_hellman", GE + "serialize_sk", GE + "deserialize_sk", GE + "derive_auth_keypair",
     K + "KeyPair::public", K + "KeyPair::private", K + "KeyPair::from_private_key", K + "KeyPair::from_private_key_slice", K + "KeyPair::generate_random",
@@ -75,6 +77,7 @@ PROPS["C01"] = {
         "name": "honest-run",
         "clauses": [],
          "supporting": ALL_BUT_EC_STRICT, "exclude": SOUND,
+         "kani": {"quick": [("api", "x25519_pk_accepts_valid")], "thorough": []},
          "theorems": ["thm_c01_honest_run", "lemma_oprf_unblind", "lemma_oprf_output_blind_independent", "lemma_unmask", "lemma_xor_involution"],
     }],
     "witness": "c01",
@@ -102,7 +105,7 @@ PROPS["C02"] = {
 PROPS["C03"] = {
     "alternatives": [{
         "name": "mac-gate",
-        "clauses": [(T + "TripleDh::finish_ke", "*"), (O + "ServerLogin::finish", "*"), (T + "Ke3Message::deserialize", "*"), (M + "CredentialFinalization::deserialize", "*"), (ER + "check_slice_size", "*"), (O + "ServerLogin::start", "state")],
+        "clauses": [(S + "UpdateExt::chain_iter", "*"), (S + "MacExt::update_iter", "*"), (T + "TripleDh::finish_ke", "*"), (O + "ServerLogin::finish", "*"), (T + "Ke3Message::deserialize", "*"), (M + "CredentialFinalization::deserialize", "*"), (ER + "check_slice_size", "*"), (O + "ServerLogin::start", "state")],
          "supporting": [(T + "Ke2State::deserialize", "*"), (T + "Ke2State::serialize", "*"), (O + "ServerLogin::deserialize", "*"), (O + "ServerLogin::serialize", "*"), (T + "TripleDh::generate_ke2", "rfc")],
          "theorems": ["thm_c03_exact", "thm_c03_expected_tag", "thm_c03_reload"],
     }],
@@ -115,7 +118,7 @@ PROPS["C03"] = {
 PROPS["C04"] = {
     "alternatives": [{
         "name": "server-mac-over-transcript",
-        "clauses": [(O + "ClientLogin::finish", "reflect"), (O + "ClientLogin::finish", "sound_mac"), (O + "ClientLogin::finish", "errkind"), (O + "ClientLogin::finish", "rp"), (T + "TripleDh::generate_ke3", "sound"), (T + "TripleDh::generate_ke3", "errkind"), (M + "CredentialResponse::deserialize", "*"), (M + "CredentialResponse::serialize_without_ke", "*"), (M + "CredentialRequest::serialize_iter", "*"), (T + "Ke2Message::to_bytes_without_mac", "*"), (T + "Ke1Message::serialize", "*"), (O + "MaskedResponse::iter", "*"), (T + "Ke2Message::deserialize", "*"), (O + "MaskedResponse::deserialize", "*")],
+        "clauses": [(S + "UpdateExt::chain_iter", "*"), (S + "MacExt::update_iter", "*"), (O + "ClientLogin::finish", "reflect"), (O + "ClientLogin::finish", "sound_mac"), (O + "ClientLogin::finish", "errkind"), (O + "ClientLogin::finish", "rp"), (T + "TripleDh::generate_ke3", "sound"), (T + "TripleDh::generate_ke3", "errkind"), (M + "CredentialResponse::deserialize", "*"), (M + "CredentialResponse::serialize_without_ke", "*"), (M + "CredentialRequest::serialize_iter", "*"), (T + "Ke2Message::to_bytes_without_mac", "*"), (T + "Ke1Message::serialize", "*"), (O + "MaskedResponse::iter", "*"), (T + "Ke2Message::deserialize", "*"), (O + "MaskedResponse::deserialize", "*")],
          "supporting": [(T + "TripleDh::generate_ke3", "ctx_err"), (T + "TripleDh::generate_ke3", "*"), (T + "derive_3dh_keys", "*"), (T + "hkdf_expand_label_extracted", "*"), (T + "hkdf_expand_label", "*"), (T + "derive_secrets", "*")],
          "theorems": ["thm_c04_mac_only", "thm_c04_fields", "thm_transcript_agreement", "lemma_preamble_injective", "lemma_frame_split", "lemma_fixed_split"],
         "kani": {"quick": [("api", "x25519_pk_canonical")], "thorough": []},
@@ -130,7 +133,7 @@ PROPS["C04"] = {
 PROPS["C05"] = {
     "alternatives": [{
         "name": "framed-binding",
-        "clauses": [(S + "Input::from", "*"), (S + "Input::from_owned", "*"), (S + "Input::iter", "*"), (O + "bytestrings_from_identifiers", "*"), (E + "construct_aad", "*"), (E + "Envelope::open", "sound"), (E + "Envelope::open_raw", "sound"), (T + "TripleDh::generate_ke2", "ctx_err"), (T + "TripleDh::generate_ke3", "sound"), (T + "TripleDh::generate_ke3", "ctx_err"), (O + "oprf_key_from_seed", "*"), (O + "ServerRegistration::start", "eval"), (O + "ServerLogin::start", "eval"), (O + "ClientLogin::finish", "sound_env"), (O + "ClientLogin::finish", "sound_mac")],
+        "clauses": [(S + "UpdateExt::chain_iter", "*"), (S + "MacExt::update_iter", "*"), (S + "Input::from", "*"), (S + "Input::from_owned", "*"), (S + "Input::iter", "*"), (O + "bytestrings_from_identifiers", "*"), (E + "construct_aad", "*"), (E + "Envelope::open", "sound"), (E + "Envelope::open_raw", "sound"), (T + "TripleDh::generate_ke2", "ctx_err"), (T + "TripleDh::generate_ke3", "sound"), (T + "TripleDh::generate_ke3", "ctx_err"), (O + "oprf_key_from_seed", "*"), (O + "ServerRegistration::start", "eval"), (O + "ServerLogin::start", "eval"), (O + "ClientLogin::finish", "sound_env"), (O + "ClientLogin::finish", "sound_mac")],
          "supporting": [(E + "Envelope::seal", "rfc"), (E + "Envelope::seal", "ok_iff"), (E + "Envelope::seal_raw", "*"), (E + "Envelope::open", "rfc"), (T + "TripleDh::generate_ke2", "rfc"), (O + "ServerLogin::start", "ke2"), (O + "ServerLogin::start", "mask"), (O + "ClientRegistration::finish", "rfc")],
          "theorems": ["thm_c05_login_binding", "thm_c05_envelope_binding", "thm_transcript_agreement", "lemma_preamble_injective", "lemma_cleartext_injective", "lemma_frame_split", "lemma_fixed_split", "lemma_i2osp2_inj", "lemma_i2osp2"],
         "kani": {"quick": [("leaf", "i2osp_u2_exact"), ("leaf", "i2osp_u1_exact")], "thorough": [("leaf", "input_from_iter_bounded"), ("leaf", "input_owned_iter_bounded"), ("leaf", "input_label_arrays_bounded")]},
@@ -144,7 +147,7 @@ PROPS["C05"] = {
 PROPS["C06"] = {
     "alternatives": [{
         "name": "envelope-binds-server-key",
-        "clauses": [(O + "ServerRegistration::start", "pk"), (O + "ClientRegistration::finish", "pk_out"), (O + "ClientLogin::finish", "pk_out"), (O + "ClientLogin::finish", "sound_env"), (E + "Envelope::open", "sound"), (E + "Envelope::open_raw", "sound"), (O + "unmask_response", "*")],
+        "clauses": [(S + "UpdateExt::chain_iter", "*"), (S + "MacExt::update_iter", "*"), (O + "ServerRegistration::start", "pk"), (O + "ClientRegistration::finish", "pk_out"), (O + "ClientLogin::finish", "pk_out"), (O + "ClientLogin::finish", "sound_env"), (E + "Envelope::open", "sound"), (E + "Envelope::open_raw", "sound"), (O + "unmask_response", "*")],
          "supporting": [(O + "ServerSetup::new", "*"), (O + "ServerSetup::new_with_key", "*"), (K + "KeyPair::generate_random", "*"), (K + "KeyPair::public", "*"), (K + "KeyPair::private", "*"), (O + "ClientRegistration::finish", "rfc"), (O + "ServerLogin::start", "mask"), (E + "Envelope::seal", "rfc"), (O + "mask_response", "*"), (K + "PrivateKey::public_key", "*")],
          "theorems": ["thm_c05_envelope_binding", "thm_c01_honest_run", "lemma_cleartext_injective", "lemma_unmask"],
     }],
@@ -158,7 +161,7 @@ PROPS["C07"] = {
     "alternatives": [{
         "name": "matched-conversations",
         # (public keys enter the transcript re-encoded: a decoder that maps two spellings to one key lets an altered message complete on both sides)
-        "clauses": [(O + "ClientLogin::finish", "sound_mac"), (O + "ServerLogin::finish", "*"), (T + "TripleDh::finish_ke", "*"), (T + "TripleDh::generate_ke3", "sound"), (O + "ServerLogin::start", "state"),
+        "clauses": [(S + "UpdateExt::chain_iter", "*"), (S + "MacExt::update_iter", "*"), (O + "ClientLogin::finish", "sound_mac"), (O + "ServerLogin::finish", "*"), (T + "TripleDh::finish_ke", "*"), (T + "TripleDh::generate_ke3", "sound"), (O + "ServerLogin::start", "state"),
                     (GE + "deserialize_pk", "canonical"), (K + "PublicKey::deserialize", "*"), (T + "Ke1Message::deserialize", "*"), (T + "Ke2Message::deserialize", "*")],
         "kani": {"quick": [("api", "x25519_pk_canonical")], "thorough": []},
          "supporting": [(O + "ClientLogin::finish", "rfc"), (O + "ServerLogin::start", "ke2"), (O + "ServerLogin::start", "tape"), (T + "TripleDh::generate_ke1", "*"), (T + "TripleDh::generate_ke2", "rfc"), (T + "TripleDh::generate_ke2", "tape"), (T + "TripleDh::generate_ke3", "rfc"), (O + "ClientLogin::start", "*"), (T + "generate_nonce", "*"), (K + "KeyPair::generate_random", "*")],
@@ -173,7 +176,8 @@ PROPS["C07"] = {
 PROPS["C08"] = {
     "alternatives": [{
         "name": "same-path-after-substitution",
-        "clauses": [(O + "ServerLogin::start", "ok"), (O + "ServerLogin::start", "ok_only"), (O + "ServerLogin::start", "eval"), (O + "ServerLogin::start", "state"), (O + "ServerLogin::start", "tape"), (M + "RegistrationUpload::dummy", "*"), (O + "ServerRegistration::dummy", "*"), (E + "Envelope::dummy", "*"), (O + "ClientLogin::finish", "errkind"), (T + "TripleDh::finish_ke", "sound"), (T + "TripleDh::finish_ke", "errkind"), (O + "ServerLogin::finish", "*")],
+        "clauses": [(O + "ServerLogin::start", "ok"), (O + "ServerLogin::start", "ok_only"), (O + "ServerLogin::start", "eval"), (O + "ServerLogin::start", "state"), (O + "ServerLogin::start", "tape"), (M + "RegistrationUpload::dummy", "*"),
+                    (O + "ServerSetup::new_with_key", "*"), (O + "ServerSetup::new", "*"), (K + "KeyPair::generate_random", "*"), (O + "ServerRegistration::dummy", "*"), (E + "Envelope::dummy", "*"), (O + "ClientLogin::finish", "errkind"), (T + "TripleDh::finish_ke", "sound"), (T + "TripleDh::finish_ke", "errkind"), (O + "ServerLogin::finish", "*")],
          "supporting": [(O + "ServerLogin::start", "mask"), (O + "ServerLogin::start", "ke2"), (O + "mask_response", "*"), (O + "oprf_key_from_seed", "*"), (O + "ClientLogin::finish", "sound_env"), (M + "CredentialResponse::serialize", "*")],
          "theorems": ["thm_c08_fake_vs_real", "thm_c02_real_env", "thm_c03_exact", "lemma_all_zero_concat"],
     }],
@@ -239,7 +243,7 @@ PROPS["C16"] = {
     "alternatives": [{
         "name": "export-key",
         "clauses": [],
-         "supporting": [(O + "get_password_derived_key", "*"), (O + "blind", "conf"), (O + "blind", "ok_iff"), (E + "Envelope::seal_raw", "*"), (E + "Envelope::open_raw", "export"), (E + "Envelope::seal", "rfc"), (E + "Envelope::seal", "tape"), (E + "Envelope::open", "rfc"), (O + "ClientRegistration::finish", "rfc"), (O + "ClientLogin::finish", "rfc")],
+         "supporting": [(O + "ServerSetup::new_with_key", "*"), (O + "ServerSetup::new", "*"), (O + "oprf_key_from_seed", "*"), (O + "get_password_derived_key", "*"), (O + "blind", "conf"), (O + "blind", "ok_iff"), (E + "Envelope::seal_raw", "*"), (E + "Envelope::open_raw", "export"), (E + "Envelope::seal", "rfc"), (E + "Envelope::seal", "tape"), (E + "Envelope::open", "rfc"), (O + "ClientRegistration::finish", "rfc"), (O + "ClientLogin::finish", "rfc")],
          "theorems": ["thm_c01_honest_run", "thm_c16_separated", "thm_c16_label_separation"],
     }],
     "witness": "c16",
@@ -339,9 +343,11 @@ PROPS["C19"] = {
         "clauses": [(G + "KeGroup::derive_auth_keypair", "*"), (G + "i2osp_2", "*"), (K + "KeyPair::generate_random", "*"), (K + "KeyPair::from_private_key", "*"), (K + "KeyPair::from_private_key_slice", "*"),
                     (K + "KeyPair::public", "*"), (K + "KeyPair::private", "*"), (K + "PrivateKey::diffie_hellman", "*"), (K + "PrivateKey::public_key", "*"), (K + "PrivateKey::serialize", "*"),
                     (K + "PrivateKey::deserialize", "*"), (K + "PublicKey::deserialize", "*"), (K + "PublicKey::serialize", "*"),
-                    (GE + "serialize_pk", "*"), (GE + "deserialize_pk", "valid"), (GE + "hash_to_scalar", "*"), (GE + "public_key", "*"), (GE + "is_zero_scalar", "*"), (GE + "diffie_hellman", "*"),
-                    (GE + "serialize_sk", "*"), (GE + "deserialize_sk", "valid"), (GE + "deserialize_sk", "nonzero"), (GE + "derive_auth_keypair", "*")],
-        "kani": {"quick": [("api", "x25519_derive_is_clamp")], "thorough": [("api", "x25519_sk_decode"), ("api", "x25519_pk_decode_identity"), ("api", "ristretto_sk_decode")]},
+                    (GE + "serialize_pk", "*"), (GE + "deserialize_pk", "*"), (GE + "hash_to_scalar", "*"), (GE + "public_key", "*"), (GE + "is_zero_scalar", "*"), (GE + "diffie_hellman", "*"),
+                    (GE + "serialize_sk", "*"), (GE + "deserialize_sk", "*"), (GE + "derive_auth_keypair", "*")],
+        # "key encodings round-trip exactly" is read in both directions (encode-decode and decode-encode): the canonicity of the key decoders counts here too
+        "kani": {"quick": [("api", "x25519_derive_is_clamp"), ("api", "x25519_pk_accepts_valid"), ("api", "x25519_pk_canonical"), ("api", "x25519_sk_decode")],
+                 "thorough": [("api", "x25519_pk_decode_identity"), ("api", "ristretto_sk_decode")]},
         "replay": ["c19"],
     }],
     "witness": "c19",
